@@ -503,3 +503,173 @@ func (lp *LockProg) CallSites(f *Fn) []LockCallSite {
 	}
 	return out
 }
+
+// EntryMust computes, for every function in the lock program, the lock classes that are definitely held whenever
+// it is entered: the intersection over all its synchronous call sites of (classes held at the site ∪ the caller's
+// own entry set).  Exported functions, interface-method implementations, goroutine entries and functions whose
+// value is taken can be entered from anywhere: their entry set is empty.
+func (lp *LockProg) EntryMust() map[*Fn]map[string]bool {
+	p := lp.P
+	open := map[*Fn]bool{}
+	// interface implementations
+	ifaceMethods := map[string]bool{}
+	for _, pk := range p.List {
+		sc := pk.Types.Scope()
+		for _, n := range sc.Names() {
+			if tn, ok := sc.Lookup(n).(*types.TypeName); ok {
+				if it, isI := tn.Type().Underlying().(*types.Interface); isI {
+					for i := 0; i < it.NumMethods(); i++ {
+						ifaceMethods[it.Method(i).Name()] = true
+					}
+				}
+			}
+		}
+	}
+	// whole-program view: a function with at least one call site in the repository is entered only from those
+	// (exported or not); functions nobody calls here (API entry points, main, init) can be entered from anywhere
+	hasCaller := map[*Fn]bool{}
+	for _, f := range lp.Fns {
+		for _, cs := range lp.callSites(f) {
+			for _, g := range cs.callees {
+				hasCaller[g] = true
+			}
+		}
+	}
+	for _, f := range lp.Fns {
+		if !hasCaller[f] || f.Decl.Name.Name == "main" || f.Decl.Name.Name == "init" {
+			open[f] = true
+		}
+	}
+	_ = ifaceMethods
+	// go statements, function values
+	for _, f := range p.AllFuncs() {
+		if f.Decl.Body == nil {
+			continue
+		}
+		ast.Inspect(f.Decl.Body, func(n ast.Node) bool {
+			switch x := n.(type) {
+			case *ast.GoStmt:
+				if g := p.FnOf(Callee(f.Pkg, x.Call)); g != nil {
+					open[g] = true
+				}
+			case *ast.CallExpr:
+				for _, a := range x.Args {
+					if se, ok := Unparen(a).(*ast.SelectorExpr); ok {
+						if fo, isF := f.Pkg.TypesInfo.ObjectOf(se.Sel).(*types.Func); isF {
+							if g := p.FnOf(fo); g != nil {
+								open[g] = true
+							}
+						}
+					}
+					if id, ok := Unparen(a).(*ast.Ident); ok {
+						if fo, isF := f.Pkg.TypesInfo.ObjectOf(id).(*types.Func); isF {
+							if g := p.FnOf(fo); g != nil {
+								open[g] = true
+							}
+						}
+					}
+				}
+			case *ast.FuncLit:
+				// calls inside function literals run later, possibly without the enclosing locks: callees become open
+				ast.Inspect(x.Body, func(m ast.Node) bool {
+					if call, ok := m.(*ast.CallExpr); ok {
+						if g := p.FnOf(Callee(f.Pkg, call)); g != nil {
+							open[g] = true
+						}
+					}
+					return true
+				})
+			}
+			return true
+		})
+	}
+	const top = "⊤"
+	entry := map[*Fn]map[string]bool{}
+	for _, f := range lp.Fns {
+		if open[f] {
+			entry[f] = map[string]bool{}
+		} else {
+			entry[f] = map[string]bool{top: true}
+		}
+	}
+	type site struct {
+		f    *Fn
+		call *ast.CallExpr
+	}
+	callers := map[*Fn][]site{}
+	for _, f := range lp.Fns {
+		for _, cs := range lp.callSites(f) {
+			for _, g := range cs.callees {
+				callers[g] = append(callers[g], site{f, cs.call})
+			}
+		}
+	}
+	heldAt := func(s site) map[string]bool {
+		out := map[string]bool{}
+		if ls := lp.Sets[s.f]; ls != nil {
+			for h := range ls.MustAt(s.call) {
+				if hc := lp.KeyClass[s.f][h]; hc != nil {
+					out[ClassKey2(hc)] = true
+				}
+			}
+		}
+		for k := range entry[s.f] {
+			out[k] = true
+		}
+		return out
+	}
+	for changed, iter := true, 0; changed && iter < 30; iter++ {
+		changed = false
+		for _, g := range lp.Fns {
+			if open[g] {
+				continue
+			}
+			var acc map[string]bool
+			for _, s := range callers[g] {
+				h := heldAt(s)
+				if h[top] {
+					continue // caller not yet resolved: no constraint from it in this round
+				}
+				if acc == nil {
+					acc = h
+				} else {
+					for k := range acc {
+						if !h[k] {
+							delete(acc, k)
+						}
+					}
+				}
+			}
+			if acc == nil {
+				if len(callers[g]) == 0 {
+					acc = map[string]bool{} // never called in scope: assume callable from anywhere
+				} else {
+					continue
+				}
+			}
+			if len(acc) != len(entry[g]) || entry[g][top] {
+				entry[g] = acc
+				changed = true
+			} else {
+				for k := range acc {
+					if !entry[g][k] {
+						entry[g] = acc
+						changed = true
+						break
+					}
+				}
+			}
+		}
+	}
+	for _, f := range lp.Fns {
+		if entry[f][top] {
+			entry[f] = map[string]bool{}
+		}
+	}
+	return entry
+}
+
+// LocksOwnReceiver reports whether g takes lock class c on its own receiver (directly or through methods it calls on it).
+func (lp *LockProg) LocksOwnReceiver(g *Fn, c string) bool {
+	return lp.locksOwnReceiver(g, c, map[*Fn]bool{})
+}
